@@ -755,6 +755,7 @@ package http2
 //@ opt noframe=true
 //@ # the length field is the length of the serialised payload
 //@ ensures length: f.length == len(f.payload)
+//@ ensures body: f.fr == old(f.fr) && f.stream == old(f.stream) && f.kind == old(f.kind)
 
 // ---------------------------------------------------------------------------
 // Server: stream state machine, flow control, limits (serverConn.go, stream.go)
@@ -1129,3 +1130,29 @@ package http2
 //@ assert@call:(*ResponseHeader).SetContentLength#1 cl: lower(hf.key) && !connspecific(hf.key) && n >= 0
 //@ assert@call:(*ResponseHeader).AddBytesKV#1 regular: lower(hf.key) && !connspecific(hf.key) && (len(hf.key) == 0 || hf.key[0] != ':')
 //@ ensures decok: hpackOK(c.dec)
+
+//@ func (*Conn).addWindow
+//@ props C07
+//@ requires recv: c != nil
+//@ # RFC 7540 6.9.1: increments are at most 2^31-1; the sum is the peer's to keep in range
+//@ requires inc: inc >= 0
+//@ opt noframe=true
+//@ opt wrapsigned=true
+//@ modifies c.connWindow, family(pendingBody)
+
+//@ func (*Conn).writeData
+//@ props C07 C18 C02
+//@ requires args: c != nil && c.bw != nil
+//@ opt noframe=true
+//@ modifies anybytes(), family(Data), family(Headers), family(Priority), family(RstStream), family(Settings), family(PushPromise), family(Ping), family(GoAway), family(WindowUpdate), family(Continuation), family(FrameHeader)
+//@ ghost lim = 0
+//@ ghost@call:AcquireFrameHeader#1 lim = step
+//@ # the frame size in force is the server's SETTINGS_MAX_FRAME_SIZE when it is a legal value, else the protocol default
+//@ assert@call:AcquireFrameHeader#1 limit: step >= 1 && step <= 16777215 && ((c.maxFrameSize >= 1 && c.maxFrameSize <= 16777215) ==> step == c.maxFrameSize)
+//@ loop 0: invariant pos: i >= 0 && i <= len(body) && step >= 1 && step <= lim && c != nil && data != nil && fh != nil && fh.fr != nil && typeis(fh.fr, *Data) && as(fh.fr, *Data) == data
+//@ # an empty body still needs its END_STREAM
+//@ assert@call:(*FrameHeader).WriteTo#1 empty: len(body) == 0 && end && data.endStream && len(data.b) == 0
+//@ # every frame of a non-empty body: within the limit, the next run of octets of the body, END_STREAM on the last one only
+//@ # (that the frame holds exactly body[i:i+step] needs the pooled frame buffer and the caller's body to be separate arrays)
+//@ assert@call:(*FrameHeader).WriteTo#2 frame: step >= 1 && step <= lim && i + step <= len(body) && len(data.b) == step &&
+//@ |   (data.endStream <==> (end && i + step == len(body))) && !data.hasPadding
